@@ -362,7 +362,7 @@ def acids_to_bases(text, rng, frac):
     return "\n".join(out) + "\n"
 
 
-def custom_cfg(changes):
+def custom_cfg(changes, extra_lines=()):
     """a copy of the shipped propka.cfg with some scalar entries replaced -> path (under /var/tmp, removed by the caller)"""
     src = (common.REPO / "propka" / "propka.cfg").read_text().splitlines()
     out = []
@@ -371,6 +371,7 @@ def custom_cfg(changes):
         if k in changes:
             l = f"{k} {changes[k]}"
         out.append(l)
+    out += list(extra_lines)
     fd, path = tempfile.mkstemp(suffix=".cfg", dir="/var/tmp")
     os.write(fd, ("\n".join(out) + "\n").encode())
     os.close(fd)
@@ -418,6 +419,14 @@ def run(chk: common.Check):
             cfgs.append(path)
             for n in ["3SGB-subset.pdb"] + (["1HPX.pdb"] if chk.thorough else []):
                 cases.append((f"{n} with {ch}", structures.read(n), ["-p", path]))
+        # a parameter file that excludes a residue type from side-chain interactions (list parameter, empty in the shipped file)
+        path = custom_cfg({}, extra_lines=["exclude_sidechain_interactions HIS", "exclude_sidechain_interactions TYR"])
+        cfgs.append(path)
+        for n in ["3SGB.pdb"] + (["1HPX.pdb"] if chk.thorough else []):
+            cases.append((f"{n} with exclude_sidechain_interactions HIS TYR", structures.read(n), ["-p", path]))
+        # insertion-code twins of one residue type next to a common partner (labels coincide; determinants must stay per partner)
+        tw = structures.map_atoms(structures.read("1HPX.pdb"), lambda l: structures.set_resnum(l, 29, "A") if (l[21] == "A" and l[22:26].strip() == "30" and l[17:20] == "ASP") else l)
+        cases.append(("1HPX ASP A 30 relabelled 29A (twin of ASP A 29)", tw, []))
         ndes, desdis = 0, []
         for name, text, opts in cases:
             try:
